@@ -47,6 +47,7 @@ class _State:
     sqrt_atoms = {}        # atom id -> radicand SR  (atom == sqrt(radicand) >= 0)
     root_atoms = {}        # atom id -> (radicand polynomial SR, den)  (atom**den == radicand)
     pending_defs = {}      # atom id -> z3 definitional constraint not yet asserted on this path (lazy)
+    ext_defs = {}          # name of a definitional max/min constant -> (is_max, [SR items])
     int_atoms = set()      # atoms that are integer valued (ToReal(Int) inputs, truncations)
     float_sentinels = {}   # SR key -> concrete stand-in returned by float() (text formatting: see vf.engine.textio)
 
@@ -67,6 +68,7 @@ def reset_atoms():
     ST.pending_defs = {}
     ST.float_sentinels = {}
     ST.int_atoms = set()
+    ST.ext_defs = {}
 
 
 def _new_atom(zexpr):
@@ -1035,6 +1037,7 @@ def sym_extreme_n(items, is_max):
         else:
             eng.add_def(z3.And(z3.And(*[mv <= z for z in zs]), z3.Or(*[mv == z for z in zs])))
         m = SR.atom(mv)
+        ST.ext_defs[str(mv)] = (is_max, list(syms))
         eng.defs_cache[key] = m
     return m
 
